@@ -438,6 +438,7 @@ def run(repo: Repo, ctx) -> None:
 
     _r5(repo, ctx)
     _r6(repo, ctx)
+    _r7(repo, ctx)
 
 
 def _r5(repo: Repo, ctx) -> None:
@@ -571,3 +572,60 @@ def _r6(repo: Repo, ctx) -> None:
                        f.loc, sample=f'len({a})')
     if n < 2:
         raise AnalysisError(f'C14.R6: only {n} length-prefixed payloads')
+
+
+def _r7(repo: Repo, ctx) -> None:
+    """C14.R7 per-element metadata describes the element that was selected.
+
+    In the shape describers each loop iteration describes one pointer of the
+    query's shape: its type comes from `<ptr>.get_target(...)` of the loop
+    variable (the *view* pointer, which carries what the query made of it:
+    `name := .name ?? 'x'` is required although the schema property is not).
+    Cardinality and link flag of the same element must be computed from the
+    same variable; the material (schema) pointer is only needed for the
+    element's source type."""
+    ctx.floor('C14.R7', 3)
+    m = repo.module(MOD)
+    PER_ELEMENT = ('cardinalities', 'links')
+    n = 0
+    for f in repo._funcs_of(m):
+        if not f.name.startswith(('_describe_object_shape',
+                                  'describe_input_shape',
+                                  '_describe_input_shape')):
+            continue
+        for lp in [l for l in ast.walk(f.node) if isinstance(l, ast.For)
+                   and isinstance(l.target, ast.Name)]:
+            var = lp.target.id
+            # loops that describe the element's type from the loop variable
+            if not any(isinstance(c, ast.Call) and norm(c.func) ==
+                       f'{var}.get_target' for c in ast.walk(lp)):
+                continue
+            for c in ast.walk(lp):
+                if not (isinstance(c, ast.Call) and isinstance(
+                        c.func, ast.Attribute) and c.func.attr == 'append'
+                        and norm(c.func.value) in PER_ELEMENT and c.args):
+                    continue
+                names = {x.id for x in ast.walk(c.args[0])
+                         if isinstance(x, ast.Name)} - {
+                             'ctx', 'cardinality_from_ptr', 'enums', 'True',
+                             'False'}
+                if not names:
+                    continue            # a constant (link properties)
+                n += 1
+                ctx.saw(f)
+                ctx.ob('C14.R7',
+                       f'{f.name}:{norm(c.func.value)}-from-element',
+                       names <= {var},
+                       f'{f.name} computes `{norm(c.func.value)}` of a shape '
+                       f'element from {sorted(names)} instead of the '
+                       f'pointer `{var}` whose target type is described: an '
+                       f'element that redefines a schema pointer '
+                       f'(`name := .name ?? \'x\'`, `assert_single(...)`) '
+                       f'is described with the schema pointer\'s '
+                       f'cardinality, and two shapes that differ only in '
+                       f'that get the same id',
+                       f'{f.module.rel()}:{c.lineno}',
+                       sample=norm(c.args[0])[:60])
+    if n < 3:
+        raise AnalysisError('C14.R7: per-element appends of the shape '
+                            'describers not found')
